@@ -38,6 +38,9 @@ func c18Patterns(root string) [][2]string {
 		{"*.log", "rel"},
 		{filepath.Join(root, "b/*"), "abs"},
 		{"./b/../a/y.log", "rel"},
+		// not canonical: a literal path with a doubled separator, a glob through "."
+		{root + "//a/x.log", "abs"},
+		{root + "/a/./*.log", "abs"},
 	}
 }
 
@@ -210,14 +213,54 @@ func propC18(e *Env) {
 		switch e.Choose("gen", 8) {
 		case 7: // deleted, its stream notices and ends, and a new file appears under the name — all between two pattern polls
 			if fi, err := os.Lstat(f); err == nil && fi.Mode().IsRegular() {
+				// half of the time the file ends in an unterminated fragment, which its stream has to hand
+				// over when it notices the deletion
+				frag := e.Bool("gen")
+				if frag {
+					step++
+					mustWrite(f, fmt.Sprintf("probe-%d-frag", step), os.O_APPEND|os.O_WRONLY)
+					r.sw.Tick()
+					if !r.quiesce() {
+						return
+					}
+				}
+				mark := len(r.got)
 				os.Remove(f)
 				r.sw.Tick()
+				// ... and the new file and the next pattern poll arrive either after the old stream is
+				// completely gone, or k scheduler steps into its winding down
+				k := -1
+				if e.Bool("gen") {
+					k = e.Choose("gen", 30)
+					for j := 0; j < k; j++ {
+						if !e.S.Step() {
+							break
+						}
+					}
+					mustWrite(f, "", os.O_CREATE|os.O_WRONLY|os.O_EXCL)
+					r.pw.Tick()
+					e.Probe("recreate_while_old_stream_winds_down")
+				}
 				if !r.quiesce() {
 					return
 				}
-				mustWrite(f, "", os.O_CREATE|os.O_WRONLY|os.O_EXCL)
-				desc = "delete " + rel(root, f) + ", stream poll, re-create"
+				if k < 0 {
+					mustWrite(f, "", os.O_CREATE|os.O_WRONLY|os.O_EXCL)
+				}
+				desc = fmt.Sprintf("delete %s (fragment pending: %v), stream poll, re-create (%d steps into it, -1 = afterwards)", rel(root, f), frag, k)
 				e.Probe("recreate_between_pattern_polls")
+				// the fragment is the only thing that may arrive here, once
+				if n := len(r.got) - mark; n > 1 || (n == 1 && !frag) || (n == 1 && r.got[mark].Line != fmt.Sprintf("probe-%d-frag", step)) {
+					did = append(did, desc)
+					e.Fail("unexpected-line", "patterns %v, history [%s]: %d lines arrived while %s was deleted and re-created: %q", patDesc, strings.Join(did, "; "), n, rel(root, f), func() []string {
+						var ls []string
+						for _, l := range r.got[mark:] {
+							ls = append(ls, l.Line)
+						}
+						return ls
+					}())
+					return
+				}
 			} else {
 				desc = "nop"
 			}
